@@ -773,7 +773,7 @@ func countLeavesExecutedFully(ns []node, lv map[int]node) int {
 
 func TestC01CliPrefix(t *testing.T) {
 	fw.Run(t, fw.Spec[progCase]{
-		ID: "C01", Name: "cli_prefix", Quick: 640, Thorough: 12800,
+		ID: "C01", Name: "cli_prefix", Quick: 1000, Thorough: 16000,
 		Gen:   func(t *rapid.T) progCase { return genProg(t, fw.Pct(t, "withTemps", 40)) },
 		Check: checkCLI,
 		Rule: "generated procedures (INSERT VALUES/SELECT, UPDATE, DELETE, REPLACE, CREATE TABLE [AS], ALTER ADD/DROP on 1-2 files in CSV/TSV/LTSV/JSON/JSONL, created files and temporary tables; COMMIT/ROLLBACK; nested IF/ELSE and WHILE blocks) with a terminator at a drawn position (normal end, failing statement, EXIT, EXIT 3, trailing ROLLBACK) run by the real binary; every leaf prints a marker, so the executed trace is read from stdout. Oracle: the final directory is byte-identical to the one produced by a reference program consisting only of the statements of the transactions that were committed before the end (rolled-back transactions dropped) + COMMIT; after a normal end: all executed statements + COMMIT. 45% of cases are run again with SIGINT/SIGTERM self-delivered at a drawn statement boundary or lib/file / commit point (old or new complete state admissible). A file never named keeps bytes, inode and mtime. non-trivial = data-changing statements after the last COMMIT with an abnormal end, or a COMMIT followed by further changes; distinct by (terminator, #commits, statement kinds after the last commit, exit code)",
